@@ -159,6 +159,12 @@ def run(tier):
             add("{{ x | default(value='D', boolean=%s) == 'D' }}" % ("true" if boolean else "false"), ctx, "true" if taken else ("false" if val != "D" else "true"), "default", {"default": str(val), "boolean": boolean})
     for s, base, exp in (("42", None, 42), ("-7", None, -7), ("ff", 16, 255), ("0x1f", 16, 31), ("101", 2, 5), ("0b11", 2, 3), ("17", 8, 15), (str(2**100), None, 2**100), ("zz", None, None), ("", None, None), ("12a", None, None)):
         add("{{ s | int%s }}" % ("(base=%d)" % base if base else ""), {"s": s}, None if exp is None else str(exp), "int", {"int": s, "base": base})
+    # floats to integers: exact when the float is whole and fits the 128-bit range, an error otherwise (2^127 does not fit)
+    for f_, exp in (("3.0", 3), ("-7.0", -7), (repr(float(2**126)), 2**126), (repr(float(-2**127)), -2**127), (repr(float(2**127)), None), (repr(float(2**128)), None), ("1e40", None),
+                    ("inf", None), ("nan", None), (repr(float(2**63)), 2**63), (repr(float(2**64)), 2**64)):
+        add("{{ v | int }}", {"v": {"$f64": f_}}, None if exp is None else str(exp), "int-of-float", {"int-of-float": f_})
+    for a_, b_, c_, exp in ((0, 5, {"$i128": str(2**64)}, "0,"), (0, 5, {"$i128": str(2**64 + 1)}, "0,"), (5, 0, {"$i128": str(-2**64)}, "5,"), (0, 3, {"$u64": str(2**63)}, "0,")):
+        add("{% for i in range(start=a, end=b, step_by=c) %}{{ i }},{% endfor %}", {"a": a_, "b": b_, "c": c_}, exp, "range-huge-step", {"range": [a_, b_, str(c_)]})
     for v_, exp in ((-5, 5), ({"$i64": str(-2**63)}, 2**63), ({"$i128": str(-2**127)}, None), ({"$u128": str(2**128 - 1)}, 2**128 - 1), (0, 0)):
         add("{{ v | abs }}", {"v": v_}, None if exp is None else str(exp), "abs", {"abs": str(v_)})
     for v_, exp in ((5, "5"), ({"$i128": str(-2**127)}, str(-2**127)), ({"$u128": str(2**128 - 1)}, str(2**128 - 1)), (True, "true"), ("a", "a")):
